@@ -31,6 +31,9 @@ package c18
 import (
 	"errors"
 	"fmt"
+	"github.com/krotik/ecal/cli/tool"
+	"os"
+	"path/filepath"
 	"strings"
 	"testing"
 
@@ -53,6 +56,8 @@ type Case struct {
 	Plant    string  `json:"plant,omitempty"`  // prog: "", stray, lexerr, runtime, eof
 	PlantIdx int     `json:"plant_idx,omitempty"`
 	Raw      []byte  `json:"raw,omitempty"` // raw: the source bytes (base64 in JSON)
+	Module   bool    `json:"module,omitempty"` // plant runtime: the program is a MODULE which one provider imports twice: first with three more empty lines in front, then as it is (positions of the second load are judged)
+	CLI      bool    `json:"cli,omitempty"` // plant runtime: the program is an entry FILE loaded by cli/tool's interpreter (LoadInitialFile)
 }
 
 func TestMain(m *testing.M) { hx.Main(m, "C18", rule) }
@@ -600,7 +605,53 @@ func runEval(c Case, l *layout) *hx.Failure {
 	p := c.Pieces[c.PlantIdx]
 	off := l.off[c.PlantIdx]
 	var err error
-	if f := hx.Guard(func() {
+	if c.CLI {
+		dir, derr := os.MkdirTemp("", "verif-c18-")
+		if derr != nil {
+			panic(derr)
+		}
+		defer os.RemoveAll(dir)
+		entry := filepath.Join(dir, "entry.ecal")
+		if werr := os.WriteFile(entry, []byte(l.src), 0644); werr != nil {
+			panic(werr)
+		}
+		hx.E.Class("planted.runtime.via-cli-entry-file", 1)
+		if f := hx.Guard(func() {
+			interp := tool.NewCLIInterpreter()
+			none, lvl := "", "Error"
+			interp.Dir, interp.LogFile, interp.LogLevel = &dir, &none, &lvl
+			interp.EntryFile = entry
+			if err = interp.CreateRuntimeProvider("c18"); err != nil {
+				panic(err)
+			}
+			go interp.RuntimeProvider.Cron.Stop() // detached: never wait for it
+			err = interp.LoadInitialFile(interp.RuntimeProvider.NewThreadID())
+			interp.RuntimeProvider.Processor.Finish()
+		}); discardPanic(f) {
+			return nil
+		}
+	} else if c.Module {
+		hx.E.Class("planted.runtime.via-module-imported-again", 1)
+		if f := hx.Guard(func() {
+			il := &util.MemoryImportLocator{Files: map[string]string{"lib": "\n\n\n" + l.src}}
+			erp := interpreter.NewECALRuntimeProvider("c18", il, util.NewNullLogger())
+			go erp.Cron.Stop() // detached: never wait for it
+			load := func() error {
+				ast, e := parser.ParseWithRuntime("c18main", "import \"lib\" as lib\n", erp)
+				if e == nil {
+					if e = ast.Runtime.Validate(); e == nil {
+						_, e = ast.Runtime.Eval(scope.NewScope(scope.GlobalScope), make(map[string]interface{}), erp.NewThreadID())
+					}
+				}
+				return e
+			}
+			load()
+			il.Files["lib"] = l.src // the module was edited: its code moved up by three lines
+			err = load()
+		}); discardPanic(f) {
+			return nil
+		}
+	} else if f := hx.Guard(func() {
 		erp := interpreter.NewECALRuntimeProvider("c18", nil, util.NewNullLogger())
 		go erp.Cron.Stop() // detached: never wait for it (it can deadlock against the cron tick)
 		var ast *parser.ASTNode
